@@ -6,7 +6,6 @@ REG = dict(
     note='Re-evaluation-stable programs only (no item assigns a variable that another item reads; closures are called in the item that defines them, carets inside closure bodies of top-level-expression programs are skipped). Carets on binding / assignment targets, pattern payloads and closure parameters, and carets whose innermost expression is a statement form (let, assignment, return, break, assert) are counted, not judged. Expressions never evaluated by the normal run are counted, not judged.',
     design_ref='DESIGN.md §6 C27',
 )
-REG = REG_DRAFT
 
 import os, re
 from ..core import Machinery
